@@ -29,6 +29,7 @@ def _a5():
     drv = common.py_driver()
     return drv
 
+@common.guarded(lambda **a: f"codec clauses for origin={a['o']} segment={a['sg']} S={a['S']} resolution={a['r']}", lambda **a: {'op': 'cell', 'cell': [a['o'], a['sg'], a['S'], a['r']]})
 def check_cell(drv, o, sg, S, r, seen, fails):
     """C05 clauses for one well-formed cell on the real code"""
     from a5.core.utils import A5Cell
@@ -74,6 +75,7 @@ def check_reject(drv, o, sg, S, r, fails):
     fails.append(Failure(f'serialize silently encodes the unfit position S={S} at resolution {r} (origin {o}, segment {sg}) as {n}',
                          {'op': 'reject', 'cell': [o, sg, S, r]}))
 
+@common.guarded(lambda **a: f"re-encoding of id {a['n']}", lambda **a: {'op': 'id', 'id': a['n']})
 def check_valid_id(drv, n, fails):
     try:
         back = drv.ser.serialize(drv.ser.deserialize(n))
